@@ -144,10 +144,16 @@ def constOk (C : RpcClass) (c : Name) : Bool :=
   | none => false
   | some k => !isFunctionOnClass k
 
+/-- the signals loop (commit 5a19713): a signal — for a task runner declared by the *task* class — must not have the
+name of an RPC method of the object or of a lock-control method -/
+def sigOk (C : RpcClass) (s : Name) : Bool := !isAdvertised C s && !protectedNames.contains s
+
 /-- `make_interface_descriptor(cls)` as called from `QMI_RpcObject.__init__`: the object exists only if this is `ok`.
-Methods first (protected names ⇒ `QMI_UsageException`), then signals, then constants (two `assert`s). -/
+Methods first (protected names ⇒ `QMI_UsageException`), then signals (name of a method / lock-control name ⇒
+`QMI_UsageException`), then constants (two `assert`s). -/
 def construct (C : RpcClass) : Except PyExc (List Name) :=
   if (advertised C).any (fun n => protectedNames.contains n) then .error .usage
+  else if !C.sigs.all (sigOk C) then .error .usage
   else if C.consts.all (constOk C) then .ok (advertised C)
   else .error .assertion
 
@@ -243,16 +249,17 @@ def proxyBuild (ms consts sigs : List Name) : Except PyExc (List Name) :=
   if (consts ++ ms ++ sigs).contains n_address then .error .attributeError
   else .ok (ms.filter (fun n => !sigs.contains n && n != n_rpc_nonblocking))
 
-/-- nothing overwrites a stub: no signal, `address`, `rpc_nonblocking` is an advertised method, and `address` is
-neither a constant nor a signal -/
+/-- what `construct` does not already exclude: `address` / `rpc_nonblocking` is not an advertised method, `address` is
+neither a constant nor a signal, no constant has a lock-control name -/
 def proxyCleanB (C : RpcClass) : Bool :=
-  (n_address :: n_rpc_nonblocking :: C.sigs).all (fun n => !isAdvertised C n)
+  [n_address, n_rpc_nonblocking].all (fun n => !isAdvertised C n)
   && !(C.consts ++ C.sigs).contains n_address
+  && !C.consts.any (fun c => protectedNames.contains c)
 
 /-- the side conditions of the per-class obligation `full_<Class>` beyond `WellFormed`: the refused branch runs no code
 of the object, every constant passes the asserts, the proxy forwards exactly the advertised methods -/
 def gateProxyOkB (C : RpcClass) : Bool :=
-  !dynAttrRunsCode C n__name && C.consts.all (constOk C) && proxyCleanB C
+  !dynAttrRunsCode C n__name && C.sigs.all (sigOk C) && C.consts.all (constOk C) && proxyCleanB C
 
 /-- the member that resolves for `n` was explicitly declared with `@rpc_method` in its class body -/
 def declared (C : RpcClass) (n : Name) : Bool :=
